@@ -95,17 +95,67 @@ var handlerErrs = func() []error {
 	return l
 }()
 
+// error codes >= 101: errors with an identity the pool itself uses, returned by a handler as its OWN ordinary error
+//   101  the discard error a handler obtained from Get2 of a Send that another, busy pool rejected
+//   102  context.DeadlineExceeded      103  context.Canceled      104  fmt.Errorf("...%w", <the discard error>)
 func herr(k int) error {
 	if k <= 0 {
 		return nil
 	}
+	switch k {
+	case 101:
+		return discardFromBusyPool()
+	case 102:
+		return context.DeadlineExceeded
+	case 103:
+		return context.Canceled
+	case 104:
+		return fmt.Errorf("wrapped: %w", discardFromBusyPool())
+	}
 	return handlerErrs[k%len(handlerErrs)]
+}
+
+// busyPool: a process-wide pool of size 1 whose only inner worker runs a handler that never returns and whose task
+// queue holds one more task: every further Send with discardOnBusy is rejected.
+var busyPool ants.Pool
+
+// ensureBusyPool must be called outside a scenario's measured span (it lets 1 ns of virtual time pass).
+func ensureBusyPool() {
+	if busyPool != nil {
+		return
+	}
+	busyPool = ants.NewPool()
+	forever := make(chan struct{})
+	block := func(ctx context.Context) (any, error) { <-forever; return nil, nil }
+	busyPool.Send(block, ants.WithDiscardOnBusy(false))
+	time.Sleep(time.Nanosecond) // the dispatcher picks it up, the inner worker enters the handler
+	busyPool.Send(block, ants.WithDiscardOnBusy(false))
+}
+
+func discardFromBusyPool() error {
+	t := busyPool.Send(func(ctx context.Context) (any, error) { return nil, nil })
+	_, e := t.Get2()
+	if !ants.IsDiscardError(e) {
+		panic("harness: the busy pool accepted a task")
+	}
+	return e
+}
+
+func needsBusyPool(behs []behaviour) bool {
+	for _, b := range behs {
+		if b.err == 101 || b.err == 104 {
+			return true
+		}
+	}
+	return false
 }
 
 func showErr(e error) string {
 	switch {
 	case e == nil:
 		return "nil"
+	case ants.IsDiscardError(e) && errors.Unwrap(e) != nil:
+		return "E104" // a handler's wrapped discard error (code 104)
 	case ants.IsDiscardError(e):
 		return "DISC"
 	case e == context.DeadlineExceeded:
@@ -148,6 +198,9 @@ func runAnts(toks []string) string {
 			}
 		}
 		specs = append(specs, sp)
+		if needsBusyPool(sp.behs) {
+			ensureBusyPool()
+		}
 	}
 	var mu sync.Mutex
 	var sb strings.Builder
